@@ -1194,6 +1194,15 @@ func runPageCounter(c *core.Ctx, r *Roles) {
 				switch x := v.(type) {
 				case *ssa.Extract:
 					return x.Tuple == pageVal
+				case *ssa.Call:
+					// handed through a helper of the package that may return it
+					if h := x.Call.StaticCallee(); h != nil && len(h.Blocks) > 0 && core.FuncPkgPath(h) == core.FuncPkgPath(fn) {
+						for _, a := range x.Call.Args {
+							if walk(a, d+1) {
+								return true
+							}
+						}
+					}
 				case *ssa.Phi:
 					for _, e := range x.Edges {
 						if walk(e, d+1) {
@@ -1245,7 +1254,17 @@ func runPageCounter(c *core.Ctx, r *Roles) {
 					return
 				}
 				kf := keyFields(args[0])
-				for _, vals := range kf {
+				for fname, vals := range kf {
+					// a key kept in a local variable whose digest is filled in later: what the field holds at this access
+					if len(vals) > 1 {
+						if ld, ok := an.Strip(args[0]).(*ssa.UnOp); ok && ld.Op == token.MUL {
+							if kal, ok := ld.X.(*ssa.Alloc); ok {
+								if cur := fieldStoreAt(kal, fname, call); cur != nil {
+									vals = []ssa.Value{cur}
+								}
+							}
+						}
+					}
 					for _, v := range vals {
 						if strings.HasSuffix(v.Type().String(), "go-digest.Digest") {
 							respDig = v
@@ -1279,15 +1298,21 @@ func runPageCounter(c *core.Ctx, r *Roles) {
 				}
 			}
 			// (b) every edge on which the request's number survives established the match (or page ≤ 0)
+			// (inside a helper the operands are mapped to the arguments of the call first: argMap)
+			argMap := func(v ssa.Value) ssa.Value { return v }
 			isMatchCond := func(cond ssa.Value) (matchOnTrue bool, ok bool) {
 				base, neg := an.CondBase(cond)
 				bo, isBin := base.(*ssa.BinOp)
 				if !isBin || (bo.Op != token.EQL && bo.Op != token.NEQ) {
 					return false, false
 				}
-				isCache := func(v ssa.Value) bool { return an.Origin(v) == an.Origin(cacheStr) }
+				isCache := func(v ssa.Value) bool { return an.Origin(argMap(v)) == an.Origin(cacheStr) }
 				isResp := func(v ssa.Value) bool {
-					call, _ := an.CallOf(an.Strip(v))
+					v = argMap(v)
+					call, _ := an.CallOf(an.Origin(v))
+					if call == nil {
+						call, _ = an.CallOf(an.Strip(v))
+					}
 					if call == nil || !an.IsMethod(call, "github.com/opencontainers/go-digest", "Digest", "String") {
 						return false
 					}
@@ -1306,7 +1331,7 @@ func runPageCounter(c *core.Ctx, r *Roles) {
 			isNonPositive := func(cond ssa.Value) (npOnTrue bool, ok bool) {
 				base, neg := an.CondBase(cond)
 				bo, isBin := base.(*ssa.BinOp)
-				if !isBin || !fromPage(bo.X) {
+				if !isBin || !fromPage(argMap(bo.X)) {
 					return false, false
 				}
 				z, isC := an.ConstInt(bo.Y)
@@ -1374,6 +1399,49 @@ func runPageCounter(c *core.Ctx, r *Roles) {
 						}
 					}
 					return
+				}
+				// chosen by a helper of the package (page = pageUsable(page, len(pages), cacheDig, curDig)): every return that hands
+				// the request's number back lies behind the justifying edges, with the helper's parameters standing for the arguments
+				if hc, _ := an.CallOf(an.Strip(v)); hc != nil {
+					if h := hc.Call.StaticCallee(); h != nil && len(h.Blocks) > 0 && core.FuncPkgPath(h) == core.FuncPkgPath(fn) && len(hc.Call.Args) == len(h.Params) {
+						saved := argMap
+						argMap = func(x ssa.Value) ssa.Value {
+							if p, isP := an.Origin(x).(*ssa.Parameter); isP {
+								for i, q := range h.Params {
+									if q == p {
+										return hc.Call.Args[i]
+									}
+								}
+							}
+							return x
+						}
+						okH := true
+						an.Instrs(h, func(in ssa.Instruction) {
+							ret, isRet := in.(*ssa.Return)
+							if !isRet || len(ret.Results) != 1 {
+								return
+							}
+							for _, o := range append([]ssa.Value{an.Strip(ret.Results[0])}, an.Origins(ret.Results[0])...) {
+								if _, isC := o.(*ssa.Const); isC {
+									continue
+								}
+								if _, isPhi := o.(*ssa.Phi); isPhi {
+									continue
+								}
+								if !fromPage(argMap(o)) {
+									continue
+								}
+								if !justified(an.GuardingEdges(ret.Block())) {
+									okH = false
+								}
+							}
+						})
+						argMap = saved
+						if !okH {
+							bad = ia.Pos()
+						}
+						return
+					}
 				}
 				// the raw request value used directly
 				if !justified(an.GuardingEdges(at)) {
